@@ -538,6 +538,13 @@ func doSelectRepoSet(shards []*rankedShard, and *query.And) ([]*rankedShard, que
 				return filtered, and
 			}
 
+			// BranchesRepos matches branches by name only, while query.Branch
+			// treats "" as any branch and "HEAD" as the first branch of a
+			// repository. Only replace if both mean the same for every repo.
+			if !branchQueryMatchesByName(c.List[0].Branch, filtered) {
+				return filtered, and
+			}
+
 			// Every repo wants the same branches, so we can replace RepoBranches
 			// with a list of branch queries.
 			and.Children[i] = &query.Branch{Pattern: c.List[0].Branch, Exact: true}
@@ -550,6 +557,28 @@ func doSelectRepoSet(shards []*rankedShard, and *query.And) ([]*rankedShard, que
 	}
 
 	return shards, and
+}
+
+// branchQueryMatchesByName reports whether an exact query.Branch for branch
+// selects the same documents as looking up the branch by its name, for every
+// repository in shards.
+func branchQueryMatchesByName(branch string, shards []*rankedShard) bool {
+	if branch == "" {
+		return false
+	}
+	if branch != "HEAD" {
+		return true
+	}
+	for _, s := range shards {
+		for _, repo := range s.repos {
+			for i, b := range repo.Branches {
+				if (b.Name == "HEAD") != (i == 0) {
+					return false
+				}
+			}
+		}
+	}
+	return true
 }
 
 func (ss *shardedSearcher) Search(ctx context.Context, q query.Q, opts *zoekt.SearchOptions) (sr *zoekt.SearchResult, err error) {
